@@ -109,6 +109,7 @@ VARIABLES
   dead,      \* "no" | "close" | "reset" | "garbage" | "rst": the backend side of the request is gone, sozu not yet reacted
   hit,       \* ghost: what the environment did to the request before any answer ("none","refused","early","stall")
   fconn,     \* frontend connection: open | draining (HTTP/2 after a default answer) | closed
+             \* | halfclosed (HTTP/1: the client was told Connection: close and sends nothing more; sozu still serves)
   pool,      \* [Backend -> none | up | peerclosed | mute]  reusable connection (HTTP/1 keep-alive or the shared h2c connection)
   bclock, fclock, wait, elapsed,
   actor,     \* ghost: the request whose step this was (0 = connection / time)
@@ -367,13 +368,15 @@ ConnectFail(r) ==
 AfterComplete(r, ph) ==
   LET b == link[r]
       closeDelim == rq[r].framing = "close" /\ sc.back = "h1"
-      \* an unframed body reaches an HTTP/1 client: only closing the connection ends it; a response that
-      \* carries Connection: close is relayed with it, and the HTTP/1 connection closes behind it as well
-      closeFront == BackCloses(r) /\ sc.front = "h1" /\ ~(closeDelim /\ "KeepAliveAfterCloseDelimited" \in Deviations)
+      \* an unframed body reaches an HTTP/1 client: only closing the connection ends it
+      closeFront == closeDelim /\ sc.front = "h1" /\ ~("KeepAliveAfterCloseDelimited" \in Deviations)
+      \* a framed response that says Connection: close is relayed with that header: sozu keeps serving what it
+      \* already received on the connection (pipelined requests), the client sends nothing more on it
+      clientStops == rq[r].framing = "clclose" /\ sc.back = "h1" /\ sc.front = "h1"
       \* (fixed defect) kept alive, the client keeps waiting for the end of the unframed body ...
       lingering == closeDelim /\ sc.front = "h1" /\ "KeepAliveAfterCloseDelimited" \in Deviations
   IN /\ pool' = [pool EXCEPT ![b] = IF BackCloses(r) THEN "none" ELSE IF @ = "mute" THEN @ ELSE "up"]
-     /\ fconn' = IF closeFront THEN "closed" ELSE fconn
+     /\ fconn' = IF closeFront THEN "closed" ELSE IF clientStops /\ fconn = "open" THEN "halfclosed" ELSE fconn
      /\ phase' = IF closeFront THEN CutAll(ph) ELSE IF lingering THEN [ph EXCEPT ![r] = "respStarted"] ELSE ph
      /\ cause' = IF closeFront THEN CutCause(ph, [cause EXCEPT ![r] = "backend"]) ELSE [cause EXCEPT ![r] = "backend"]
 
@@ -644,7 +647,7 @@ TypeOK ==
                      /\ bprog[r] \in 0..4 /\ cprog[r] \in 0..4 /\ cprog[r] <= bprog[r]
                      /\ attempts[r] \in 0..MaxRetries
                      /\ istate[r] \in {"no", "sent", "fwd"}
-  /\ fconn \in {"open", "draining", "closed"}
+  /\ fconn \in {"open", "draining", "closed", "halfclosed"}
   /\ boff \in 0..BackoffTicks /\ idle \in 0..GapTicks
 
 \* (a) at most one final answer per request: once set it never changes
